@@ -23,6 +23,44 @@ EXPLANATION = (
 LEVEL_NOTE = "Undecided: message wording; resource exhaustion with huge series files."
 
 
+def r2c_log_checked_entry_by_entry(ck, cmd_push):
+    """A reordered or edited .pc/applied-patches is only noticed when every one of its entries is compared with the series entry at
+    the same position: a walk over both lists in step (zip / enumerate, as a loop or as find / any / all / position / try_for_each)
+    whose body compares two path names, or a whole-sequence comparison of the names (starts_with / Iterator::eq)."""
+    prog = ck.prog
+    rule = "C17-R2c"
+    is_path = lambda a: "std::path::PathBuf" in a or "std::path::Path" in a
+    def compares_names(fn, blocks):
+        for bb, t in fn.calls():
+            if bb in blocks and not fn.blocks[bb]["cleanup"] and (callee_of(t).get("rpath") or "").split("::")[-1] in ("eq", "ne") and \
+                    len(t["argtys"]) == 2 and all(is_path(a) for a in t["argtys"]):
+                return fn.where(t)
+        return None
+    found = []
+    stepwise = lambda ity: "SeriesPatch" in ity and ("Zip<" in ity or "Enumerate<" in ity)
+    for il in pt.iterator_loops(cmd_push):
+        if stepwise(il["iter_ty"]):
+            w = compares_names(cmd_push, set(il["body"]))
+            if w:
+                found.append("loop over %s" % il["iter_ty"].split("::")[-1][:40] + " @ " + str(w))
+    for bb, t in cmd_push.calls():
+        if cmd_push.blocks[bb]["cleanup"]:
+            continue
+        rp = callee_of(t).get("path") or ""
+        last = rp.split("::")[-1]
+        if last in ("find", "any", "all", "position", "try_for_each", "for_each", "find_map") and len(t["args"]) == 2 and stepwise(t["argtys"][0]):
+            e = df.operand_expr(cmd_push, t["args"][1])
+            cl = prog.fns.get(e[1]) if isinstance(e, tuple) and e and e[0] == "closure" else None
+            if cl is not None and compares_names(cl, set(range(len(cl.blocks)))):
+                found.append("%s over both lists in step" % last)
+        if last in ("starts_with", "eq", "ne") and len(t["argtys"]) == 2 and all(is_path(a) and ("[" in a or "Iter<" in a or "Map<" in a or "Vec<" in a) for a in t["argtys"]):
+            found.append("%s of the two name sequences" % last)
+    ck.require(bool(found), rule, "every entry of .pc/applied-patches is compared with the series entry at its position",
+               "cmd_push has no walk over the series and the log in step that compares the names (nor a whole-sequence comparison): a "
+               "reordered or edited .pc/applied-patches would be accepted and patches pushed on top of an unknown tree", cmd_push.where(),
+               ok_detail="; ".join(found))
+
+
 def run(ck):
     prog, cg = ck.prog, ck.cg
     cmd_push, run_fn, rs = ck.anchor(A["cmd_push"]), ck.anchor(A["run"]), ck.anchor(A["read_series"])
@@ -112,6 +150,7 @@ def run(ck):
         ck.require(rs.id not in writers, "C17-R2", "reading series / applied-patches has no write effect",
                    "read_series_file can reach a file-system write", cmd_push.where(t))
     # the prefix comparison: mismatch and 'longer than series' are both refusals (the latter is the guard the slice proof needs)
+    r2c_log_checked_entry_by_entry(ck, cmd_push)
     # ---- R3 ------------------------------------------------------------------------------------------
     loops = [il for il in pt.iterator_loops(seq) if "SeriesPatch" in il["iter_ty"]]
     if ck.require(len(loops) == 1, "C17-R3", "one per-patch loop in the sequential driver", "%d loops over the series" % len(loops), seq.where()):
